@@ -124,8 +124,20 @@ def history(draw, ntapes=3):
 
     for j in range(draw(st.integers(2, 14))):
         b = draw(st.integers(0, nb - 1))
-        o = draw(st.sampled_from(["play_tone", "play_tone_d", "stop", "beep", "beep_nofreq", "sweep", "melody", "melody_tempo", "get"]))
+        o = draw(st.sampled_from(["play_tone", "play_tone_d", "stop", "beep", "beep_nofreq", "sweep", "melody", "melody_tempo", "get", "residue"]))
         m = f"@{j}"
+        if o == "residue":
+            # a tone left sounding by an untimed play_tone, then a call that plays nothing (count 0 / negative), then stop() right behind it
+            f = {"text": repr(draw(st.sampled_from([440, 262.5, 1000]))), "kind": "lit", "v": None}
+            f["v"] = float(f["text"])
+            lines += [f"bz{b}.play_tone({f['text']})", f"mon.write('{m}a')"]
+            ops.append({"m": m + "a", "b": b, "op": "play_tone", "f": f, "d": None})
+            t0 = draw(st.sampled_from([0, -1, -3]))
+            on, off, times = arg(DURS), arg(DURS), {"text": repr(t0), "kind": "lit", "v": t0}
+            lines += [f"bz{b}.beep(on_ms={on['text']}, off_ms={off['text']}, times={times['text']})", f"bz{b}.stop()", f"mon.write('{m}')"]
+            ops.append({"m": m, "b": b, "op": "beep", "f": None, "on": on, "off": off, "times": times, "then_stop": True})
+            boundary[0] += 1
+            continue
         if o == "play_tone":
             f = arg(FREQS)
             lines.append(f"bz{b}.play_tone({f['text']})")
